@@ -296,8 +296,10 @@ static int recv_events(m_ctx_t *c, int timeout) {
                 m_mem_unref(evt);
             }
         } else {
-            /* Forward error to below handling code */
-            err = EAGAIN;
+            /*
+             * Either an error condition on the polled fd, or the source was
+             * deregistered while its event was pending: skip just this event.
+             */
             M_WARN("Received message without proper source: src -> %p\n", p);
         }
     }
